@@ -142,6 +142,18 @@ func (f *FM) corpusField() {
 	arity := map[string]int{"Mul": 2, "Add": 2, "Sub": 2, "Square": 1, "Opp": 1, "FromMontgomery": 1, "ToMontgomery": 1, "Reduce": 1, "Selectznz": 2}
 	for _, e := range entries {
 		as := e.arrays()
+		if w := e.wide(); e.Func == "Wide48" && w != nil {
+			if n%20 == 0 {
+				f.reset()
+			}
+			n++
+			f.class("corpus:carry_sites")
+			var arr [48]byte
+			copy(arr[:], w)
+			f.F[2].HashToFieldElement(arr)
+			f.emitF("FWide", kv{"d", 3}, kv{"data", arr[:]})
+			continue
+		}
 		if k, known := arity[e.Func]; !known || len(as) < k {
 			continue
 		}
@@ -512,6 +524,27 @@ func (f *FM) wide48() []byte {
 // genC09w: the scalar field's wide reduction on chosen 48-byte strings (DESIGN C09 (ii)).
 func genC09w(m *M, budget int) {
 	f := &FM{M: m}
+	// 48-byte strings solved for the carry sites of the conversion of b and of its multiplication by the constant 2^192
+	nw := 0
+	for _, e := range loadCorpus("scalar") {
+		w := e.wide()
+		if e.Func != "Wide48" || w == nil {
+			continue
+		}
+		if nw%30 == 0 {
+			f.reset()
+		}
+		nw++
+		f.class("corpus:carry_sites")
+		var arr [48]byte
+		copy(arr[:], w)
+		var out scalar.MontgomeryDomainFieldElement
+		scalar.HashToFieldElement(&out, arr)
+		var nm scalar.NonMontgomeryDomainFieldElement
+		scalar.FromMontgomery(&nm, &out)
+		f.emitF("NWide", kv{"data", arr[:]}, kv{"ret", scalar.NonMontgomeryToBytes(&nm)})
+	}
+	budget += f.events
 	for f.events < budget {
 		f.reset()
 		for j := 0; j < 30; j++ {
